@@ -200,8 +200,11 @@ def analyse(D: decoders.Decoders, e, run: Run, facts_out=None) -> int:
 def window_obligations(repo: Repo, run: Run, wanted, why: str) -> None:
     """The decoders index their window by position: events[0] must be the matching START record and events[-1] the END
     record.  That is the pairing machine's contract (C04 K3/K4); its obligations are necessary conditions here too."""
+    if getattr(run, "is_probe", False):
+        return          # (a check run for its own obligations does not take over in turn)
     from . import c04
     probe = Run("C04", run.tier, run.repo_root)
+    probe.is_probe = True
     try:
         c04.check(repo, probe)
     except AnalysisError as ex:
@@ -219,8 +222,11 @@ def lookup_obligations(repo: Repo, run: Run, why: str) -> None:
     """Path arguments are taken from `parse_vnode(s)(events)`: that those are assembled from the window's VFS_LOOKUP records and
     from nothing else (C08/R1) is what makes a path argument "a function of the nested lookups only".  C08's obligations about
     the assembler are necessary conditions here; where C08 cannot decide the assembler this check cannot rely on it either."""
+    if getattr(run, "is_probe", False):
+        return          # (a check run for its own obligations does not take over in turn)
     from . import c08
     probe = Run("C08", run.tier, run.repo_root)
+    probe.is_probe = True
     try:
         c08.check(repo, probe)
     except AnalysisError as ex:     # the assembler is not decided: exit 2 in the end, own rules are judged first
